@@ -1,11 +1,12 @@
 (* impl-model of the SASL path of girc (C09): cap_sasl.go (SASLPlain.Encode,
-   SASLExternal.Encode, handleSASL, handleSASLError), the ACK branch of cap.go handleCAP
-   (slim: only the `sasl` capability is followed), registerBuiltins' routing of
+   SASLExternal.Encode, handleSASL, handleSASLError), cap.go handleCAP (Model/Cap.v
+   handle_cap, with STS disabled and no Config.SupportedCaps), registerBuiltins' routing of
    AUTHENTICATE / 900-908, execLoop's "ERROR => return &ErrEvent", the credential-bearing
    writes of internalConnect (WEBIRC, PASS) and Cmd.Oper, and what debugLogEvent /
    RunHandlers / Event.Pretty print as a function of the Sensitive and Echo flags.
    No proofs here. *)
-Require Import Bytes Utf8 Base64.
+Require Import Bytes Utf8 Base64 CapLib StsState.
+Require Cap.
 
 (* ---- events ----------------------------------------------------------- *)
 
@@ -160,7 +161,9 @@ Record config := mkCfg {
   cfg_server_pass : str;
   cfg_webirc : webirc;
   cfg_tracking : bool;        (* not disableTracking *)
-  cfg_nick : str; cfg_user : str; cfg_name : str }.
+  cfg_nick : str; cfg_user : str; cfg_name : str;
+  cfg_ord : list str -> list str }.   (* the order in which Go iterates tmpCap when it
+                                         builds CAP REQ (not a setting: any function) *)
 
 Definition webirc_event (w : webirc) : event :=
   secret_ev c_WEBIRC [w_password w; w_gateway w; w_hostname w; w_address w].
@@ -177,47 +180,29 @@ Definition registration_writes (c : config) : list event :=
    plain_ev c_USER [cfg_user c; c_star; c_star;
                     if is_nil (cfg_name c) then cfg_user c else cfg_name c]].
 
-(* ---- handleCAP, slim: only `sasl` is followed ---------------------------
-   Valid for servers that advertise no capability known to the client other than
-   sasl and never ACK `sts` (the full negotiation is C08's model). *)
+(* ---- handleCAP: Model/Cap.v handle_cap ------------------------------------
+   The client of this model has Config.DisableSTS set and no Config.SupportedCaps (the
+   STS block is C10's subject); the connection is plaintext and the clock is irrelevant
+   then.  Negotiation state = Cap.cap_state (tmpCap, enabledCap, the STS record). *)
+Definition nstate := Cap.cap_state.
+Definition ns_init : nstate := Cap.cap_init sts_init.
 
-Record nstate := mkNs { ns_tmp_sasl : bool; ns_enabled_sasl : bool }.
-Definition ns_init : nstate := mkNs false false.
+Definition cap_cfg_of (c : config) : Cap.cap_cfg :=
+  Cap.mkCfg (option_map mech_method (cfg_sasl c)) true false false [] (cfg_tracking c) None []
+            (cfg_nick c) (cfg_user c) (cfg_name c).
 
-(* key under which parseCap files a token: text before the first '=' if that is at
-   index >= 1, else the whole token *)
-Definition cap_name (tok : str) : str :=
-  match index_byte 61 tok with
-  | Some (S v) => firstn (S v) tok
-  | _ => tok
+(* c.write(&Event{Command: cmd, Params: params}); the two STS outcomes cannot occur with
+   DisableSTS (Proofs/SaslCapLines.v handle_cap_writes_only) *)
+Definition cap_out_outputs (o : Cap.cap_out) : list output :=
+  match o with
+  | Cap.Write cmd params => [Write (plain_ev cmd params)]
+  | Cap.InjectError _ => []
+  | Cap.Upgrade => []
   end.
-Definition cap_names (raw : str) : list str := List.map cap_name (split_byte 32 raw).
-Definition mem_str (x : str) (l : list str) : bool := existsb (streqb x) l.
-Definition has_sasl (c : config) : bool := match cfg_sasl c with Some _ => true | None => false end.
 
-Definition handle_cap_slim (c : config) (ns : nstate) (e : event) : nstate * list output :=
-  let ps := ev_params e in
-  let n := length ps in
-  let p1 := nth 1 ps [] in
-  if Nat.leb 2 n && streqb p1 c_DEL then
-    (mkNs (ns_tmp_sasl ns) (ns_enabled_sasl ns && negb (mem_str c_sasl (cap_names (ev_last e)))), [])
-  else if Nat.leb 2 n && streqb p1 c_NAK then (ns, [Write cap_end])
-  else if Nat.leb 3 n && (streqb p1 c_LS || streqb p1 c_NEW) then
-    let tmp := ns_tmp_sasl ns || (has_sasl c && mem_str c_sasl (cap_names (ev_last e))) in
-    let ns' := mkNs tmp (ns_enabled_sasl ns) in
-    if Nat.eqb n 3 then
-      if tmp then (ns', [Write (plain_ev c_CAP [c_REQ; c_sasl])]) else (ns', [Write cap_end])
-    else (ns', [])
-  else if Nat.eqb n 3 && streqb p1 c_ACK then
-    (* enabledCap gets the raw tokens of the list; tmpCap is re-initialised *)
-    let en := ns_enabled_sasl ns || mem_str c_sasl (split_byte 32 (ev_last e)) in
-    let ns' := mkNs false en in
-    match cfg_sasl c with
-    | Some m => if en then (ns', [Write (plain_ev c_AUTHENTICATE [mech_method m])])
-                else (ns', [Write cap_end])
-    | None => (ns', [Write cap_end])
-    end
-  else (ns, []).
+Definition handle_cap (c : config) (ns : nstate) (e : event) : nstate * list output :=
+  let r := Cap.handle_cap (cfg_ord c) (cap_cfg_of c) false 0%Z ns (ev_params e) in
+  (fst r, flat_map cap_out_outputs (snd r)).
 
 (* ---- registerBuiltins routing + RunHandlers' command dispatch ------------ *)
 
@@ -229,7 +214,7 @@ Definition run_handlers (c : config) (ns : nstate) (e : event) : res (nstate * l
   else if streqb (ev_cmd e) c_AUTHENTICATE || streqb (ev_cmd e) n903 then
     outs <- handle_sasl (cfg_sasl c) e ;; Ok (ns, outs)
   else if is_sasl_error_numeric (ev_cmd e) then Ok (ns, handle_sasl_error (cfg_sasl c) e)
-  else if streqb (ev_cmd e) c_CAP then Ok (handle_cap_slim c ns e)
+  else if streqb (ev_cmd e) c_CAP then Ok (handle_cap c ns e)
   else Ok (ns, []).
 
 (* ---- execLoop: one dequeued event; ERROR => Connect returns &ErrEvent ------ *)
@@ -329,3 +314,81 @@ Section Log.
   Definition debug_log_in (e : event) : str :=
     t_lt ++ (if ev_echo e then t_echo else []) ++ strip_raw (event_bytes e).
 End Log.
+
+(* ---- what a session prints ------------------------------------------------
+   One record per logged event: the line handed to Config.Debug and the lines handed to
+   Config.Out.  Outgoing events are logged by sendLoop (debugLogEvent), every event
+   execLoop dequeues by RunHandlers -- including the ERROR a handler injects. *)
+Section SessionLog.
+  Variable strip_raw : str -> str.
+  Variable pretty_rest : event -> option str.
+
+  Definition write_log (e : event) : str * list str :=
+    (debug_log strip_raw false e, out_log strip_raw pretty_rest e).
+  Definition recv_log (e : event) : str * list str :=
+    (debug_log_in strip_raw e, out_log strip_raw pretty_rest e).
+  Definition output_log (o : output) : str * list str :=
+    match o with
+    | Write e => write_log e
+    | InjectError t => recv_log (error_event t)
+    end.
+
+  (* registration (internalConnect) *)
+  Definition registration_log (c : config) : list (str * list str) :=
+    List.map write_log (registration_writes c).
+
+  (* the events of a history, fed one by one as in `run`; nothing is dequeued any more
+     once Connect has returned *)
+  Fixpoint session_log (c : config) (cn : conn) (h : list event) : list (str * list str) :=
+    match h with
+    | [] => []
+    | e :: h' =>
+      match feed c cn e with
+      | Ok (cn1, outs) =>
+        (match cn_returned cn with
+         | None => recv_log e :: List.map output_log outs
+         | Some _ => []
+         end) ++ session_log c cn1 h'
+      | Panic => []
+      end
+    end.
+End SessionLog.
+
+(* ---- stateful mechanisms ------------------------------------------------------
+   A Go SASLMech may keep state between calls (challenge-response mechanisms do): Method
+   and Encode may answer differently every time.  A history is then a list of steps, each
+   pairing the server's event with the mechanism as it behaves at that step. *)
+Definition set_sasl (c : config) (m : sasl_mech) : config :=
+  mkCfg (Some m) (cfg_server_pass c) (cfg_webirc c) (cfg_tracking c)
+        (cfg_nick c) (cfg_user c) (cfg_name c) (cfg_ord c).
+
+Fixpoint run_stateful (c : config) (cn : conn) (steps : list (sasl_mech * event))
+  : res (conn * list output) :=
+  match steps with
+  | [] => Ok (cn, [])
+  | (m, e) :: r =>
+    x <- feed (set_sasl c m) cn e ;;
+    y <- run_stateful c (fst x) r ;;
+    Ok (fst y, snd x ++ snd y)
+  end.
+
+(* what a session with a stateful mechanism prints (session_log over run_stateful's steps) *)
+Section SessionLogStateful.
+  Variable strip_raw : str -> str.
+  Variable pretty_rest : event -> option str.
+
+  Fixpoint session_log_stateful (c : config) (cn : conn) (steps : list (sasl_mech * event))
+    : list (str * list str) :=
+    match steps with
+    | [] => []
+    | (m, e) :: r =>
+      match feed (set_sasl c m) cn e with
+      | Ok (cn1, outs) =>
+        (match cn_returned cn with
+         | None => recv_log strip_raw pretty_rest e :: List.map (output_log strip_raw pretty_rest) outs
+         | Some _ => []
+         end) ++ session_log_stateful c cn1 r
+      | Panic => []
+      end
+    end.
+End SessionLogStateful.
